@@ -26,6 +26,9 @@ pub enum Env {
     AcceptGarbage,
     AcceptSilent,
     Served,
+    /// TLS client only: the TCP connection is accepted but the server presents a certificate of
+    /// another authority, so the handshake fails: a failed connect. Plain TCP: same as Refused.
+    BadCert,
 }
 
 #[derive(Copy, Clone, Debug, PartialEq, Eq, Hash, Serialize, Deserialize)]
@@ -50,6 +53,10 @@ pub struct C13Case {
     pub idle: Vec<Act>,
     /// how the task is finally ended
     pub end_by_drop: bool,
+    /// the channel is a TLS client (create_tls_client_task_with_options) and the peer completes
+    /// a TLS handshake before it behaves as the environment says
+    #[serde(default)]
+    pub tls: bool,
 }
 
 pub fn arb_c13() -> BoxedStrategy<C13Case> {
@@ -69,8 +76,10 @@ pub fn arb_c13() -> BoxedStrategy<C13Case> {
         1 => Just(Env::AcceptGarbage),
         2 => Just(Env::AcceptSilent),
         3 => Just(Env::Served),
+        1 => Just(Env::BadCert),
     ];
     (
+        prop::bool::weighted(0.35),
         20u16..40,
         1u16..=4,
         proptest::option::weighted(0.5, 1u8..3),
@@ -80,7 +89,7 @@ pub fn arb_c13() -> BoxedStrategy<C13Case> {
         any::<bool>(),
         proptest::option::weighted(0.5, (0usize..14, any::<bool>())),
     )
-        .prop_map(|(min_ms, mult, max_timeouts, envs, mut gates, idle, end_by_drop, early_end)| {
+        .prop_map(|(tls, min_ms, mult, max_timeouts, envs, mut gates, idle, end_by_drop, early_end)| {
             // the first gate (initial Disabled) usually enables the channel
             if !gates[0].contains(&Act::Enable) && gates[0].len() < 3 {
                 gates[0].push(Act::Enable);
@@ -99,6 +108,7 @@ pub fn arb_c13() -> BoxedStrategy<C13Case> {
                 gates,
                 idle,
                 end_by_drop,
+                tls,
             }
         })
         .boxed()
@@ -165,18 +175,42 @@ fn run_once(case: &C13Case, slow: u32, facet: Facet) -> CaseResult {
         let accepts = Arc::new(AtomicUsize::new(0));
         let mut acceptor: Option<tokio::task::JoinHandle<()>> = None;
 
+        let mut labels_tls = false;
         let (gtx, mut grx) = mpsc::unbounded_channel();
         let min = Duration::from_millis(case.min_ms as u64);
         let max = Duration::from_millis(case.max_ms as u64);
         let options = ClientOptions::default()
             .max_queued_requests(16)
             .max_response_timeouts(case.max_timeouts.and_then(|n| std::num::NonZeroUsize::new(n as usize)));
-        let (channel, task) = rodbus::client::create_tcp_client_task_with_options(
-            HostAddr::ip(addr.ip(), addr.port()),
-            rodbus::doubling_retry_strategy(min, max),
-            Some(Box::new(Gate { tx: gtx })),
-            options,
-        );
+        let (channel, task) = if case.tls {
+            let tls_config = rodbus::client::TlsClientConfig::full_pki(
+                Some("test.com".to_string()),
+                &super::c09::path("ca1", "pem"),
+                &super::c09::path("client_operator", "pem"),
+                &super::c09::path("client_operator", "key"),
+                None,
+                super::c09::min_tls(12),
+            )
+            .map_err(|e| format!("INFRA: TlsClientConfig failed: {}", e))?;
+            rodbus::client::create_tls_client_task_with_options(
+                HostAddr::ip(addr.ip(), addr.port()),
+                rodbus::doubling_retry_strategy(min, max),
+                tls_config,
+                Some(Box::new(Gate { tx: gtx })),
+                options,
+            )
+        } else {
+            rodbus::client::create_tcp_client_task_with_options(
+                HostAddr::ip(addr.ip(), addr.port()),
+                rodbus::doubling_retry_strategy(min, max),
+                Some(Box::new(Gate { tx: gtx })),
+                options,
+            )
+        };
+        let tls = case.tls;
+        if tls {
+            labels_tls = true;
+        }
         let mut join = Some(tokio::spawn(task.run()));
         let mut channel: Option<Channel> = Some(channel);
 
@@ -363,7 +397,7 @@ fn run_once(case: &C13Case, slow: u32, facet: Facet) -> CaseResult {
                     let disable_possible = (processed_min..settings.len()).any(|j| !settings[j]) || name == "Disabled";
                     if let (Some(p), Some(env)) = (prev, last_env) {
                         match (state_name(&p), env) {
-                            ("Connecting", Env::Refused) => {
+                            ("Connecting", Env::Refused) | ("Connecting", Env::BadCert) => {
                                 if !(name == "WaitAfterFailedConnect" || (name == "Disabled" && disable_possible) || name == "Shutdown") {
                                     return Err(format!("connection refused, but the next state is {} instead of a wait", name));
                                 }
@@ -431,7 +465,7 @@ fn run_once(case: &C13Case, slow: u32, facet: Facet) -> CaseResult {
                             a.abort();
                             let _ = a.await;
                         }
-                        if env != Env::Refused {
+                        if env != Env::Refused && (tls || env != Env::BadCert) {
                             let l = match TcpListener::bind(addr).await {
                                 Ok(l) => l,
                                 Err(e) => return Err(format!("INFRA: rebind {}", e)),
@@ -439,12 +473,22 @@ fn run_once(case: &C13Case, slow: u32, facet: Facet) -> CaseResult {
                             let acc = accepts.clone();
                             acceptor = Some(tokio::spawn(async move {
                                 loop {
-                                    let (mut s, _) = match l.accept().await {
+                                    let (tcp, _) = match l.accept().await {
                                         Ok(x) => x,
                                         Err(_) => return,
                                     };
                                     acc.fetch_add(1, Ordering::SeqCst);
                                     tokio::spawn(async move {
+                                        let mut s: Link = if tls {
+                                            let cert = if env == Env::BadCert { "server_ca2" } else { "server_ok" };
+                                            let acceptor = tokio_rustls::TlsAcceptor::from(super::c09::peer_server_config(super::c09::Offer::Both, cert));
+                                            match acceptor.accept(tcp).await {
+                                                Ok(t) => Box::new(t),
+                                                Err(_) => return,
+                                            }
+                                        } else {
+                                            Box::new(tcp)
+                                        };
                                         match env {
                                             Env::AcceptClose => {
                                                 tokio::time::sleep(Duration::from_millis(5)).await;
@@ -463,7 +507,7 @@ fn run_once(case: &C13Case, slow: u32, facet: Facet) -> CaseResult {
                                                     }
                                                 }
                                             }
-                                            Env::Served | Env::Refused => {
+                                            Env::Served | Env::Refused | Env::BadCert => {
                                                 let mut b = [0u8; 512];
                                                 let mut acc: Vec<u8> = Vec::new();
                                                 loop {
@@ -616,6 +660,9 @@ fn run_once(case: &C13Case, slow: u32, facet: Facet) -> CaseResult {
         if delays_checked >= 2 {
             ok.label("delays>=2");
         }
+        if labels_tls {
+            ok.label("tls_client");
+        }
         if failed_in_a_row >= 2 || states.iter().filter(|s| matches!(s.0, ClientState::WaitAfterFailedConnect(_))).count() >= 2 {
             ok.label("doubling_observed");
         }
@@ -634,14 +681,15 @@ pub fn arb_c14b() -> BoxedStrategy<C13Case> {
         5 => Just(Env::Refused),
         3 => Just(Env::AcceptClose),
         1 => Just(Env::AcceptGarbage),
+        2 => Just(Env::BadCert),
     ];
     let gate = prop_oneof![
         12 => Just(Vec::new()),
         1 => Just(vec![Act::Submit]),
         1 => Just(vec![Act::Disable, Act::Enable]),
     ];
-    (20u16..35, 1u16..=4, vec(env, 3..8), vec(gate, 6..16), any::<bool>())
-        .prop_map(|(min_ms, mult, envs, mut gates, end_by_drop)| {
+    (prop::bool::weighted(0.35), 20u16..35, 1u16..=4, vec(env, 3..8), vec(gate, 6..16), any::<bool>())
+        .prop_map(|(tls, min_ms, mult, envs, mut gates, end_by_drop)| {
             gates[0] = vec![Act::Enable];
             C13Case {
                 min_ms,
@@ -651,6 +699,7 @@ pub fn arb_c14b() -> BoxedStrategy<C13Case> {
                 gates,
                 idle: vec![],
                 end_by_drop,
+                tls,
             }
         })
         .boxed()
